@@ -289,6 +289,8 @@ fn exec_scaling(ctx: &mut Ctx, spec: &RunSpec, idx: u64) -> RunResult {
         last = r;
     }
     let (t1, t4) = (times[0].max(1000), times[2]);
+    // how the ratios are distributed is part of the evidence (rare-condition probes)
+    last.probes.push(if t4 >= 100_000 { format!("scaling_ratio_{:02}", ((t4 as f64 / t1 as f64) as u64).min(20)) } else { "scaling_full_size_below_100ms".to_string() });
     if t4 >= 100_000 && t4 as f64 / t1 as f64 > 9.0 {
         let kind = spec
             .stored_faults
